@@ -1,1 +1,994 @@
-//! (to be filled in)
+//! W3 `dissem`: leader-side shredding, the datagram network between leader and receiver
+//! (loss decides *which* shreds arrive, reordering and duplication decide the order), receiver-side
+//! validation and `BlockstoreImpl`, and independently constructed Rotor/Turbine instances.
+//! Oracles: C11 (erasure coding), C12 (shred binding / equivocation), C13 (blockstore), C16 (routing).
+
+use std::collections::{BTreeMap, BTreeSet};
+use std::sync::Arc;
+use std::time::Duration;
+
+use alpenglow::consensus::{AddShredError, Blockstore, BlockstoreEvent, BlockstoreImpl};
+use alpenglow::crypto::merkle::{BlockHash, DoubleMerkleTree};
+use alpenglow::disseminator::rotor::{FaitAccompli1Sampler, IidQuorumSampler, StakeWeightedSampler};
+use alpenglow::disseminator::{Rotor, TrivialDisseminator, Turbine};
+use alpenglow::shredder::{
+    AontShredder, CodingOnlyShredder, DeshredError, MAX_DATA_PER_SLICE, PetsShredder, RegularShredder, Shred,
+    ShredIndex, Shredder, TOTAL_SHREDS, ValidatedShred,
+};
+use alpenglow::types::{Slice, Slot};
+use alpenglow::{BlockId, Disseminator, Transaction};
+use serde_json::json;
+use tokio::sync::mpsc;
+
+use crate::kernel;
+use crate::keys;
+use crate::net::{Iface, NetCfg, NetCore, SimNet, node_of, port_of, pump};
+use crate::props::WorldOutcome;
+use crate::wire::{self, si};
+
+const G: &str = "gen";
+const N: &str = "net";
+
+// =============================================================================================
+// C11
+
+fn boundary_len(max: usize) -> usize {
+    // boundary-biased over every residue of the padding scheme (multiples of 2*DATA_SHREDS = 64)
+    match kernel::choose(G, 10) {
+        0 => 0,
+        1 => 1,
+        2 => max,
+        3 => max - 1,
+        4 => max + 1,
+        5 => 64 * (1 + kernel::choose(G, (max / 64) as u64 - 1) as usize),
+        6 => 64 * (1 + kernel::choose(G, (max / 64) as u64 - 1) as usize) - 1,
+        7 => 64 * (1 + kernel::choose(G, (max / 64) as u64 - 1) as usize) + 1,
+        8 => kernel::choose(G, 200) as usize,
+        _ => kernel::choose(G, max as u64 + 1) as usize,
+    }
+}
+
+fn c11_one<S: Shredder>(name: &'static str) -> (bool, serde_json::Value) {
+    let kp = keys::keypair(kernel::choose(G, 4) as usize);
+    let with_parent = kernel::choose(G, 2) == 1;
+    let parent: Option<BlockId> = if with_parent { Some((Slot::new(kernel::choose(G, 50)), wire::synth_hash(1, kernel::choose(G, 5)))) } else { None };
+    let overhead = if with_parent { 1 + 8 + 32 } else { 1 } + 8;
+    let max_data = S::MAX_DATA_SIZE - overhead;
+    let len = boundary_len(max_data);
+    let fill = kernel::choose(G, 4);
+    let data: Vec<u8> = (0..len)
+        .map(|i| match fill {
+            0 => 0u8,
+            1 => 0xFF,
+            2 => 0x80,
+            _ => (i as u8).wrapping_mul(31).wrapping_add(len as u8),
+        })
+        .collect();
+    let slice = Slice {
+        slot: Slot::new(1 + kernel::choose(G, 100)),
+        slice_index: si(kernel::choose(G, 1024) as usize),
+        is_last: kernel::choose(G, 2) == 1,
+        parent: parent.clone(),
+        data: data.clone(),
+    };
+    kernel::event_nt(&format!("c11 {name} len={len} max={max_data} parent={with_parent}"));
+    let mut shredder = S::default();
+    let shreds = match shredder.shred(&slice, &kp.sk) {
+        Ok(s) => {
+            if len > max_data {
+                kernel::violation("C11", format!("oversize-accepted:{name}"), format!("{name}: slice with {len} data bytes (limit {max_data}) was shredded"));
+                return (false, json!(null));
+            }
+            s
+        }
+        Err(e) => {
+            if len <= max_data {
+                kernel::violation("C11", format!("fitting-slice-refused:{name}"), format!("{name}: slice with {len} data bytes (limit {max_data}) refused: {e:?}"));
+            } else {
+                kernel::probe("c11_oversize_refused");
+            }
+            return (len > max_data, json!({"shredder": name, "len": len, "refused": true}));
+        }
+    };
+    let originals: Vec<Vec<u8>> = shreds.iter().map(|s| wire::shred_bytes(s.as_shred())).collect();
+    // the network: loss picks which shreds arrive, reordering the order, duplication repeats
+    let keep = match kernel::choose(N, 6) {
+        0 => 32,
+        1 => 31,
+        2 => 64,
+        3 => 33,
+        _ => kernel::choose(N, 65) as usize,
+    };
+    let mut order: Vec<usize> = (0..TOTAL_SHREDS).collect();
+    for i in (1..order.len()).rev() {
+        let j = i - kernel::choose(N, (i + 1) as u64) as usize;
+        order.swap(i, j);
+    }
+    order.truncate(keep);
+    if keep > 0 && kernel::choose(N, 3) == 0 {
+        let d = order[kernel::choose(N, keep as u64) as usize];
+        order.push(d); // duplicate delivery
+    }
+    let mut arr: [Option<ValidatedShred>; TOTAL_SHREDS] = [const { None }; TOTAL_SHREDS];
+    let mut receiver = S::default();
+    let mut distinct = 0usize;
+    let mut reconstructed = false;
+    for (k, idx) in order.iter().enumerate() {
+        if arr[*idx].is_some() {
+            kernel::fault("duplication");
+            continue;
+        }
+        arr[*idx] = Some(shreds[*idx].clone());
+        distinct += 1;
+        if reconstructed {
+            continue;
+        }
+        let before: Vec<Option<Vec<u8>>> = arr.iter().map(|s| s.as_ref().map(|s| wire::shred_bytes(s.as_shred()))).collect();
+        let res = std::panic::catch_unwind(std::panic::AssertUnwindSafe(|| receiver.deshred(&mut arr)));
+        let res = match res {
+            Ok(r) => r,
+            Err(_) => {
+                let ps = kernel::take_panics();
+                kernel::violation("C11", format!("panic:{name}"), format!("{name}: deshred panicked with {distinct} shreds (len {len}): {:?}", ps.last().map(|p| &p.message)));
+                return (false, json!(null));
+            }
+        };
+        match res {
+            Ok(rs) => {
+                if distinct < 32 {
+                    kernel::violation("C11", format!("too-few-reconstructed:{name}"), format!("{name}: {distinct} shreds reconstructed a slice"));
+                }
+                reconstructed = true;
+                let same = rs.slot == slice.slot && rs.slice_index == slice.slice_index && rs.is_last == slice.is_last && rs.parent == slice.parent && rs.data == slice.data;
+                if !same {
+                    kernel::violation(
+                        "C11",
+                        format!("wrong-slice:{name}"),
+                        format!("{name}: reconstruction from {distinct} shreds differs from the original (len {len}, got len {}, parent {:?} vs {:?}, last {} vs {})", rs.data.len(), rs.parent.is_some(), slice.parent.is_some(), rs.is_last, slice.is_last),
+                    );
+                }
+                for (i, s) in arr.iter().enumerate() {
+                    match s {
+                        None => kernel::violation("C11", format!("missing-not-regenerated:{name}"), format!("{name}: shred {i} not regenerated")),
+                        Some(s) => {
+                            let b = wire::shred_bytes(s.as_shred());
+                            if b != originals[i] {
+                                kernel::violation("C11", format!("regenerated-differs:{name}"), format!("{name}: regenerated shred {i} differs from the leader's (len {len}, from {distinct} shreds)"));
+                            } else if before[i].is_none() {
+                                // the regenerated shred must validate under the same signed root
+                                let ok = wire::decode_shred(&b).is_some_and(|sh| ValidatedShred::try_new(sh, None, &kp.pk).is_ok());
+                                if !ok {
+                                    kernel::violation("C11", format!("regenerated-invalid:{name}"), format!("{name}: regenerated shred {i} does not validate"));
+                                }
+                            }
+                        }
+                    }
+                }
+            }
+            Err(e) => {
+                let after: Vec<Option<Vec<u8>>> = arr.iter().map(|s| s.as_ref().map(|s| wire::shred_bytes(s.as_shred()))).collect();
+                if after != before {
+                    kernel::violation("C11", format!("error-mutated-input:{name}"), format!("{name}: deshred returned {e:?} but changed the shred array"));
+                }
+                if distinct >= 32 {
+                    kernel::violation("C11", format!("enough-not-reconstructed:{name}"), format!("{name}: {distinct} distinct shreds (last arrival #{k}) but deshred returned {e:?} (len {len})"));
+                } else if e != DeshredError::NotEnoughShreds {
+                    kernel::violation("C11", format!("wrong-error:{name}"), format!("{name}: {distinct} shreds, deshred returned {e:?} instead of NotEnoughShreds"));
+                }
+            }
+        }
+    }
+    if keep < 64 {
+        kernel::fault("loss");
+    }
+    kernel::fault("reordering");
+    kernel::fingerprint(&format!("{name}:{len}:{with_parent}:{keep}"));
+    (distinct > 0, json!({"shredder": name, "data_len": len, "limit": max_data, "with_parent": with_parent, "arrivals": order.len(), "distinct": distinct, "reconstructed": reconstructed}))
+}
+
+pub fn c11_run() -> WorldOutcome {
+    let (nt, sample) = match kernel::choose(G, 4) {
+        0 => c11_one::<RegularShredder>("regular"),
+        1 => c11_one::<CodingOnlyShredder>("coding_only"),
+        2 => c11_one::<AontShredder>("aont"),
+        _ => c11_one::<PetsShredder>("pets"),
+    };
+    WorldOutcome { nontrivial: nt, sample, virt_ms: 0 }
+}
+
+// =============================================================================================
+// receiver = the body of `Alpenglow::handle_disseminator_shred` on a real BlockstoreImpl
+
+pub struct Receiver {
+    pub bs: BlockstoreImpl,
+    rx: mpsc::Receiver<BlockstoreEvent>,
+    rt: tokio::runtime::Runtime,
+    pub events: Vec<String>,
+    pub blocks: Vec<(u64, BlockHash, BlockId)>,
+    pub invalid: Vec<u64>,
+    pub first_shred: Vec<u64>,
+}
+
+#[derive(Debug, PartialEq, Eq, Clone, Copy)]
+pub enum Ingest {
+    RejectedByValidation,
+    Stored,
+    Duplicate,
+    Equivocation,
+    InvalidShred,
+}
+
+impl Receiver {
+    pub fn new() -> Self {
+        let (tx, rx) = mpsc::channel(100_000);
+        let rt = tokio::runtime::Builder::new_current_thread().build().expect("rt");
+        Self { bs: BlockstoreImpl::new(tx), rx, rt, events: vec![], blocks: vec![], invalid: vec![], first_shred: vec![] }
+    }
+
+    /// What the message loop does with a shred off the wire.
+    pub fn ingest(&mut self, shred: Shred, leader_pk: &alpenglow::crypto::signature::PublicKey) -> Ingest {
+        let slot = shred_slot(&shred);
+        let slice = shred_slice(&shred);
+        let cached = self.bs.cached_commitment(slot, slice);
+        let v = match ValidatedShred::try_new(shred, cached.as_ref(), leader_pk) {
+            Ok(v) => v,
+            Err(alpenglow::shredder::ShredValidationError::Equivocation) => {
+                self.rt.block_on(self.bs.flag_leader_misbehavior(slot));
+                self.drain();
+                return Ingest::Equivocation;
+            }
+            Err(_) => return Ingest::RejectedByValidation,
+        };
+        let r = self.rt.block_on(self.bs.add_shred_from_dissemination(v));
+        self.drain();
+        match r {
+            Ok(_) => Ingest::Stored,
+            Err(AddShredError::Duplicate) => Ingest::Duplicate,
+            Err(AddShredError::Equivocation) => Ingest::Equivocation,
+            Err(AddShredError::InvalidShred) => Ingest::InvalidShred,
+            Err(AddShredError::TypeMismatch) => Ingest::RejectedByValidation,
+        }
+    }
+
+    pub fn drain(&mut self) {
+        while let Ok(ev) = self.rx.try_recv() {
+            match ev {
+                BlockstoreEvent::FirstShred(s) => {
+                    self.events.push("first".into());
+                    self.first_shred.push(s.inner());
+                }
+                BlockstoreEvent::InvalidBlock(s) => {
+                    self.events.push("invalid".into());
+                    self.invalid.push(s.inner());
+                }
+                BlockstoreEvent::Block { slot, block_info } => {
+                    self.events.push("block".into());
+                    self.blocks.push((slot.inner(), block_info.verif_hash().clone(), block_info.verif_parent().clone()));
+                }
+            }
+        }
+    }
+}
+
+fn shred_slot(s: &Shred) -> Slot {
+    let b = wire::shred_bytes(s);
+    Slot::new(wire::get_u64(&b, wire::SHRED_OFF_SLOT))
+}
+
+fn shred_slice(s: &Shred) -> alpenglow::types::SliceIndex {
+    let b = wire::shred_bytes(s);
+    si(wire::get_u64(&b, wire::SHRED_OFF_SLICE) as usize)
+}
+
+// =============================================================================================
+// block shapes
+
+#[derive(Clone, Debug, PartialEq, Eq)]
+pub enum Malform {
+    None,
+    ConflictingSlice,
+    ContradictoryLast,
+    SliceAfterLast,
+    UndecodableTxs,
+    FirstWithoutParent,
+    ParentSwitchedTwice,
+    ParentSwitchedToSelf,
+    ParentNotEarlier,
+}
+
+fn txs(n: usize, tag: u64) -> Vec<u8> {
+    let v: Vec<Transaction> = (0..n).map(|i| Transaction(vec![(tag as u8).wrapping_add(i as u8); 1 + (i * 37 + tag as usize) % 300])).collect();
+    wire::txs_payload(&v)
+}
+
+/// Draws a block shape; returns the slices (well-formed unless `malform` says otherwise).
+fn draw_block(slot: u64, max_slices: usize, malform: &Malform) -> Vec<Slice> {
+    let n_slices = 1 + kernel::choose(G, max_slices as u64) as usize;
+    let parent: BlockId = (Slot::new(kernel::choose(G, slot)), wire::synth_hash(0, 1 + kernel::choose(G, 3)));
+    let switch_at = if n_slices >= 2 && kernel::choose(G, 3) == 0 { Some(1 + kernel::choose(G, (n_slices - 1) as u64) as usize) } else { None };
+    let mut slices = Vec::new();
+    for i in 0..n_slices {
+        let size_kind = kernel::choose(G, 5);
+        let data = match size_kind {
+            0 => wire::txs_payload(&[]),
+            1 => txs(1, i as u64),
+            2 => txs(60, i as u64),
+            _ => txs(1 + kernel::choose(G, 20) as usize, i as u64),
+        };
+        let mut p = if i == 0 { Some(parent.clone()) } else { None };
+        if Some(i) == switch_at {
+            // optimistic handover: the parent is switched once to a different earlier block
+            p = Some((Slot::new(kernel::choose(G, slot)), wire::synth_hash(0, 7)));
+        }
+        slices.push(Slice { slot: Slot::new(slot), slice_index: si(i), is_last: i == n_slices - 1, parent: p, data });
+    }
+    match malform {
+        Malform::None | Malform::ConflictingSlice | Malform::ContradictoryLast | Malform::SliceAfterLast => {}
+        Malform::UndecodableTxs => {
+            let k = kernel::choose(G, n_slices as u64) as usize;
+            slices[k].data = vec![0xFF; 9 + kernel::choose(G, 50) as usize];
+        }
+        Malform::FirstWithoutParent => slices[0].parent = None,
+        Malform::ParentSwitchedTwice => {
+            while slices.len() < 3 {
+                let i = slices.len();
+                for s in &mut slices {
+                    s.is_last = false;
+                }
+                slices.push(Slice { slot: Slot::new(slot), slice_index: si(i), is_last: true, parent: None, data: txs(1, 9) });
+            }
+            slices[1].parent = Some((Slot::new(kernel::choose(G, slot)), wire::synth_hash(0, 8)));
+            slices[2].parent = Some((Slot::new(kernel::choose(G, slot)), wire::synth_hash(0, 9)));
+        }
+        Malform::ParentSwitchedToSelf => {
+            if slices.len() < 2 {
+                slices[0].is_last = false;
+                slices.push(Slice { slot: Slot::new(slot), slice_index: si(1), is_last: true, parent: None, data: txs(1, 9) });
+            }
+            for s in slices.iter_mut().skip(1) {
+                s.parent = None;
+            }
+            slices[1].parent = slices[0].parent.clone();
+        }
+        Malform::ParentNotEarlier => {
+            let bad = slot + kernel::choose(G, 3);
+            if kernel::choose(G, 2) == 0 || slices.len() < 2 {
+                slices[0].parent = Some((Slot::new(bad), wire::synth_hash(0, 5)));
+                for s in slices.iter_mut().skip(1) {
+                    s.parent = None;
+                }
+            } else {
+                for s in slices.iter_mut().skip(1) {
+                    s.parent = None;
+                }
+                slices[1].parent = Some((Slot::new(bad), wire::synth_hash(0, 5)));
+            }
+        }
+    }
+    slices
+}
+
+// =============================================================================================
+// C13
+
+pub fn c13_run(max_slices: usize) -> WorldOutcome {
+    let leader = kernel::choose(G, 4) as usize;
+    let kp = keys::keypair(leader);
+    let slot = 2 + kernel::choose(G, 40);
+    let malform = match kernel::choose(G, 14) {
+        0 => Malform::ConflictingSlice,
+        1 => Malform::ContradictoryLast,
+        2 => Malform::SliceAfterLast,
+        3 => Malform::UndecodableTxs,
+        4 => Malform::FirstWithoutParent,
+        5 => Malform::ParentSwitchedTwice,
+        6 => Malform::ParentSwitchedToSelf,
+        7 => Malform::ParentNotEarlier,
+        _ => Malform::None,
+    };
+    let slices = draw_block(slot, max_slices, &malform);
+    let Some(blk) = wire::build_block(slices.clone(), &kp.sk).or_else(|| {
+        // FirstWithoutParent: build_block needs a parent for bookkeeping only
+        let mut shredder = RegularShredder::default();
+        let shreds: Option<Vec<Vec<ValidatedShred>>> = slices.iter().map(|s| shredder.shred(s, &kp.sk).ok().map(|a| a.to_vec())).collect();
+        let shreds = shreds?;
+        let roots: Vec<_> = shreds.iter().map(|s| s[0].slice_root().clone()).collect();
+        let tree = DoubleMerkleTree::new(roots.iter());
+        Some(wire::BuiltBlock { slot: Slot::new(slot), hash: tree.get_root(), parent: (Slot::genesis(), wire::synth_hash(0, 0)), slices: slices.clone(), shreds, tree })
+    }) else {
+        return WorldOutcome { nontrivial: false, sample: json!({"error": "slice too large"}), virt_ms: 0 };
+    };
+    // extra signed material for the malformations that need a second signing
+    let mut extra: Vec<ValidatedShred> = Vec::new();
+    let mut shredder = RegularShredder::default();
+    match malform {
+        Malform::ConflictingSlice => {
+            let k = kernel::choose(G, slices.len() as u64) as usize;
+            let mut s = slices[k].clone();
+            s.data = txs(2, 99);
+            extra = shredder.shred(&s, &kp.sk).expect("shred").to_vec();
+        }
+        Malform::ContradictoryLast => {
+            // same content, last flag signed the other way round for one slice
+            let k = kernel::choose(G, slices.len() as u64) as usize;
+            let mut s = slices[k].clone();
+            s.is_last = !s.is_last;
+            extra = shredder.shred(&s, &kp.sk).expect("shred").to_vec();
+        }
+        Malform::SliceAfterLast => {
+            let s = Slice { slot: Slot::new(slot), slice_index: si(slices.len() + kernel::choose(G, 3) as usize), is_last: kernel::choose(G, 2) == 1, parent: None, data: txs(1, 5) };
+            extra = shredder.shred(&s, &kp.sk).expect("shred").to_vec();
+        }
+        _ => {}
+    }
+    // delivery schedule: per slice at least 32 shreds (so reconstruction is owed), any order, duplicates
+    let mut sched: Vec<ValidatedShred> = Vec::new();
+    for slice_shreds in &blk.shreds {
+        let keep = 32 + kernel::choose(N, 33) as usize;
+        let mut idx: Vec<usize> = (0..TOTAL_SHREDS).collect();
+        for i in (1..idx.len()).rev() {
+            let j = i - kernel::choose(N, (i + 1) as u64) as usize;
+            idx.swap(i, j);
+        }
+        for i in idx.into_iter().take(keep) {
+            sched.push(slice_shreds[i].clone());
+            if kernel::choose(N, 12) == 0 {
+                sched.push(slice_shreds[i].clone());
+                kernel::fault("duplication");
+            }
+        }
+    }
+    let n_extra = if extra.is_empty() { 0 } else { 1 + kernel::choose(N, 40) as usize };
+    for s in extra.iter().take(n_extra) {
+        sched.push(s.clone());
+    }
+    match kernel::choose(N, 3) {
+        0 => {} // slice by slice
+        _ => {
+            for i in (1..sched.len()).rev() {
+                let j = i - kernel::choose(N, (i + 1) as u64) as usize;
+                sched.swap(i, j);
+            }
+            kernel::fault("reordering");
+        }
+    }
+    kernel::fault("loss");
+    kernel::event_nt(&format!("c13 slot={slot} slices={} malform={malform:?} deliveries={}", slices.len(), sched.len()));
+    let mut rcv = Receiver::new();
+    let mut outcomes: BTreeMap<String, u32> = BTreeMap::new();
+    for s in &sched {
+        let sh = wire::decode_shred(&wire::shred_bytes(s.as_shred())).expect("own shred decodes");
+        let r = match std::panic::catch_unwind(std::panic::AssertUnwindSafe(|| rcv.ingest(sh, &kp.pk))) {
+            Ok(r) => r,
+            Err(_) => {
+                let ps = kernel::take_panics();
+                kernel::violation("C13", "panic", format!("blockstore panicked on a validly signed shred ({malform:?}): {:?}", ps.last().map(|p| format!("{} @ {}", p.message, p.location))));
+                return WorldOutcome { nontrivial: false, sample: json!(null), virt_ms: 0 };
+            }
+        };
+        *outcomes.entry(format!("{r:?}")).or_insert(0) += 1;
+    }
+    let well_formed = malform == Malform::None;
+    let id: BlockId = (Slot::new(slot), blk.hash.clone());
+    if well_formed {
+        if rcv.first_shred != vec![slot] {
+            kernel::violation("C13", "first-shred:not-exactly-once", format!("FirstShred events {:?} for slot {slot}", rcv.first_shred));
+        }
+        if rcv.blocks.len() != 1 {
+            kernel::violation("C13", if rcv.blocks.is_empty() { "block:not-reconstructed" } else { "block:announced-twice" }, format!("{} Block events for a correct leader's block with >=32 shreds of each of {} slices delivered; invalid={:?}", rcv.blocks.len(), slices.len(), rcv.invalid));
+        }
+        if !rcv.invalid.is_empty() {
+            kernel::violation("C13", "correct-leader-flagged", format!("InvalidBlock for a correct leader's well-formed block (slot {slot})"));
+        }
+        if let Some((s, h, p)) = rcv.blocks.first() {
+            if *s != slot || *h != blk.hash {
+                kernel::violation("C13", "block:wrong-hash", format!("announced hash differs from the double-Merkle root of the slice roots"));
+            }
+            if *p != blk.parent {
+                kernel::violation("C13", "block:wrong-parent", format!("announced parent {:?} differs from the leader's {:?}", p.0, blk.parent.0));
+            }
+            // serving
+            if rcv.bs.disseminated_block_hash(Slot::new(slot)) != Some(&blk.hash) {
+                kernel::violation("C13", "serve:disseminated_block_hash", "disseminated_block_hash does not return the block".to_string());
+            }
+            if rcv.bs.get_block(&id).is_none() {
+                kernel::violation("C13", "serve:get_block", "get_block returns nothing for the reconstructed block".to_string());
+            }
+            if rcv.bs.get_last_slice_index(&id) != Some(si(slices.len() - 1)) {
+                kernel::violation("C13", "serve:last_slice_index", "wrong last slice index".to_string());
+            }
+            for (k, slice_shreds) in blk.shreds.iter().enumerate() {
+                let root = slice_shreds[0].slice_root().clone();
+                if rcv.bs.get_slice_root(&id, si(k)).as_ref() != Some(&root) {
+                    kernel::violation("C13", "serve:slice_root", format!("slice root {k} not served correctly"));
+                }
+                match rcv.bs.create_double_merkle_proof(&id, si(k)) {
+                    Some(proof) => {
+                        if !DoubleMerkleTree::check_proof(&root, k, &blk.hash, &proof) {
+                            kernel::violation("C13", "serve:proof", format!("double-Merkle proof for slice {k} does not verify"));
+                        }
+                    }
+                    None => kernel::violation("C13", "serve:proof", format!("no double-Merkle proof for slice {k}")),
+                }
+                for (i, orig) in slice_shreds.iter().enumerate() {
+                    match rcv.bs.get_shred(&id, si(k), ShredIndex::new(i).expect("idx")) {
+                        Some(s) => {
+                            if wire::shred_bytes(s.as_shred()) != wire::shred_bytes(orig.as_shred()) {
+                                kernel::violation("C13", "serve:shred-differs", format!("served shred {k}/{i} differs from the leader's"));
+                            }
+                        }
+                        None => kernel::violation("C13", "serve:shred-missing", format!("shred {k}/{i} cannot be served after reconstruction")),
+                    }
+                }
+            }
+        }
+        // leader fast path stores the same block
+        let mut own = Receiver::new();
+        let mut own_hash = None;
+        for (k, s) in slices.iter().enumerate() {
+            let arr: Box<[ValidatedShred; TOTAL_SHREDS]> = Box::new(std::array::from_fn(|i| blk.shreds[k][i].clone()));
+            let payload = slice_payload(s);
+            let r = own.rt.block_on(own.bs.add_own_slice(payload, arr));
+            if let Some(bi) = r {
+                own_hash = Some(bi.verif_hash().clone());
+            }
+        }
+        own.drain();
+        if own_hash.as_ref() != Some(&blk.hash) || own.blocks.len() != 1 || own.first_shred != vec![slot] {
+            kernel::violation("C13", "fast-path:differs", format!("leader fast path announced {:?} blocks / hash equal: {}", own.blocks.len(), own_hash.as_ref() == Some(&blk.hash)));
+        }
+    } else {
+        let n_flagged = rcv.invalid.len();
+        let delivered_evidence = match malform {
+            Malform::ConflictingSlice | Malform::ContradictoryLast | Malform::SliceAfterLast => n_extra > 0,
+            _ => true,
+        };
+        if delivered_evidence {
+            if n_flagged == 0 {
+                kernel::violation(
+                    "C13",
+                    format!("malformed-not-flagged:{malform:?}"),
+                    format!("{malform:?} block in slot {slot}: no InvalidBlock; Block events: {} (ingest outcomes {outcomes:?})", rcv.blocks.len()),
+                );
+            } else if n_flagged > 1 {
+                kernel::violation("C13", "invalid-announced-twice", format!("InvalidBlock announced {n_flagged} times for slot {slot}"));
+            }
+        }
+        // never a Block from dissemination *after* the InvalidBlock
+        if let Some(pos_inv) = rcv.events.iter().position(|e| e == "invalid")
+            && rcv.events.iter().skip(pos_inv).any(|e| e == "block")
+        {
+            kernel::violation("C13", "block-after-invalid", format!("Block announced after InvalidBlock for slot {slot} ({malform:?})"));
+        }
+    }
+    kernel::fingerprint(&format!("{malform:?}:{}:{:?}", slices.len(), outcomes));
+    let sample = json!({"slot": slot, "slices": slices.len(), "malformation": format!("{malform:?}"), "deliveries": sched.len(), "ingest_outcomes": outcomes,
+        "block_events": rcv.blocks.len(), "invalid_events": rcv.invalid.len(), "first_shred_events": rcv.first_shred.len()});
+    WorldOutcome { nontrivial: true, sample, virt_ms: 0 }
+}
+
+fn slice_payload(s: &Slice) -> alpenglow::types::SlicePayload {
+    // SlicePayload has no public constructor: go through its wire form (parent, data)
+    let mut b = Vec::new();
+    b.extend(wincode::serialize(&s.parent).expect("ser"));
+    b.extend(wincode::serialize(&s.data).expect("ser"));
+    alpenglow::types::SlicePayload::try_from(b.as_slice()).expect("payload")
+}
+
+// =============================================================================================
+// C12
+
+#[derive(Clone, Copy, Debug, PartialEq, Eq, PartialOrd, Ord)]
+pub enum Mutation {
+    Slot,
+    SliceIndex,
+    LastFlag,
+    ShredIndex,
+    PayloadByte,
+    PayloadLength,
+    ProofElement,
+    ProofLength,
+    Signature,
+    TypeTag,
+    CrossReplayOtherSlice,
+    CrossReplayOtherSlot,
+    Splice,
+}
+
+const MUTS: [Mutation; 13] = [
+    Mutation::Slot, Mutation::SliceIndex, Mutation::LastFlag, Mutation::ShredIndex, Mutation::PayloadByte, Mutation::PayloadLength,
+    Mutation::ProofElement, Mutation::ProofLength, Mutation::Signature, Mutation::TypeTag, Mutation::CrossReplayOtherSlice,
+    Mutation::CrossReplayOtherSlot, Mutation::Splice,
+];
+
+fn mutate(b: &[u8], m: Mutation, other_slice: &[u8], other_slot: &[u8]) -> Option<Vec<u8>> {
+    let mut v = b.to_vec();
+    let lay = wire::shred_layout(&v)?;
+    match m {
+        Mutation::Slot => {
+            let s = wire::get_u64(&v, wire::SHRED_OFF_SLOT);
+            wire::put_u64(&mut v, wire::SHRED_OFF_SLOT, s + 1 + kernel::choose(G, 3));
+        }
+        Mutation::SliceIndex => {
+            let s = wire::get_u64(&v, wire::SHRED_OFF_SLICE);
+            wire::put_u64(&mut v, wire::SHRED_OFF_SLICE, (s + 1 + kernel::choose(G, 3)) % 1024);
+        }
+        Mutation::LastFlag => v[wire::SHRED_OFF_LAST] ^= 1,
+        Mutation::ShredIndex => {
+            let s = wire::get_u64(&v, wire::SHRED_OFF_INDEX);
+            wire::put_u64(&mut v, wire::SHRED_OFF_INDEX, (s + 1 + kernel::choose(G, 62)) % 64);
+        }
+        Mutation::PayloadByte => {
+            if lay.data_len == 0 {
+                return None;
+            }
+            let i = wire::SHRED_OFF_DATA + kernel::choose(G, lay.data_len as u64) as usize;
+            v[i] ^= 1 << kernel::choose(G, 8);
+        }
+        Mutation::PayloadLength => {
+            // drop or add trailing payload bytes (length prefix adjusted so the shred still decodes)
+            if kernel::choose(G, 2) == 0 && lay.data_len >= 2 {
+                v.drain(lay.sig_off - 2..lay.sig_off);
+                wire::put_u64(&mut v, wire::SHRED_OFF_DATALEN, (lay.data_len - 2) as u64);
+            } else {
+                v.splice(lay.sig_off..lay.sig_off, [0u8, 0u8]);
+                wire::put_u64(&mut v, wire::SHRED_OFF_DATALEN, (lay.data_len + 2) as u64);
+            }
+        }
+        Mutation::ProofElement => {
+            if lay.proof_elems == 0 {
+                return None;
+            }
+            let e = kernel::choose(G, lay.proof_elems as u64) as usize;
+            v[lay.proof_off + 32 * e + kernel::choose(G, 32) as usize] ^= 1 << kernel::choose(G, 8);
+        }
+        Mutation::ProofLength => {
+            if kernel::choose(G, 2) == 0 && lay.proof_elems > 0 {
+                v.truncate(v.len() - 32);
+                wire::put_u64(&mut v, lay.proof_len_off, (lay.proof_elems - 1) as u64);
+            } else {
+                v.extend([0x11u8; 32]);
+                wire::put_u64(&mut v, lay.proof_len_off, (lay.proof_elems + 1) as u64);
+            }
+        }
+        Mutation::Signature => v[lay.sig_off + kernel::choose(G, 64) as usize] ^= 1 << kernel::choose(G, 8),
+        Mutation::TypeTag => v[wire::SHRED_OFF_TAG] ^= 1,
+        Mutation::CrossReplayOtherSlice => {
+            // genuine shred of another slice, re-labelled as this slice
+            v = other_slice.to_vec();
+            let s = wire::get_u64(b, wire::SHRED_OFF_SLICE);
+            wire::put_u64(&mut v, wire::SHRED_OFF_SLICE, s);
+        }
+        Mutation::CrossReplayOtherSlot => {
+            v = other_slot.to_vec();
+            let s = wire::get_u64(b, wire::SHRED_OFF_SLOT);
+            wire::put_u64(&mut v, wire::SHRED_OFF_SLOT, s);
+        }
+        Mutation::Splice => {
+            // header+payload of this shred with signature+proof of a shred of another slice
+            let lo = wire::shred_layout(other_slice)?;
+            v.truncate(lay.sig_off);
+            v.extend_from_slice(&other_slice[lo.sig_off..]);
+        }
+    }
+    Some(v)
+}
+
+pub fn c12_run() -> WorldOutcome {
+    let leader = kernel::choose(G, 4) as usize;
+    let kp = keys::keypair(leader);
+    let slot = 2 + kernel::choose(G, 40);
+    let blk = wire::simple_block(Slot::new(slot), (Slot::new(kernel::choose(G, slot)), wire::synth_hash(0, 1)), 2 + kernel::choose(G, 2) as usize, 3, &kp.sk);
+    let other = wire::simple_block(Slot::new(slot + 1), (Slot::new(slot), blk.hash.clone()), 1, 4, &kp.sk);
+    let mode = kernel::choose(G, 3);
+    let mut rcv = Receiver::new();
+    let mut classes_delivered: BTreeSet<Mutation> = BTreeSet::new();
+    let mut accepted_tampered = 0;
+    kernel::event_nt(&format!("c12 slot={slot} mode={mode}"));
+
+    if mode < 2 {
+        // honest leader, tamperer on the path; with a cached commitment (some genuine shreds first) or without
+        let with_cache = mode == 1;
+        let target_slice = kernel::choose(G, blk.shreds.len() as u64) as usize;
+        if with_cache {
+            for i in 0..(1 + kernel::choose(G, 5) as usize) {
+                let b = wire::shred_bytes(blk.shreds[target_slice][i].as_shred());
+                let _ = rcv.ingest(wire::decode_shred(&b).expect("dec"), &kp.pk);
+            }
+        }
+        let n_mut = 3 + kernel::choose(G, 10);
+        for _ in 0..n_mut {
+            let m = MUTS[kernel::choose(G, MUTS.len() as u64) as usize];
+            let i = 8 + kernel::choose(G, 50) as usize;
+            let genuine = wire::shred_bytes(blk.shreds[target_slice][i].as_shred());
+            let o_slice = wire::shred_bytes(blk.shreds[(target_slice + 1) % blk.shreds.len()][i].as_shred());
+            let o_slot = wire::shred_bytes(other.shreds[0][i].as_shred());
+            let Some(bytes) = mutate(&genuine, m, &o_slice, &o_slot) else { continue };
+            let Some(sh) = wire::decode_shred(&bytes) else {
+                kernel::probe("c12_mutant_rejected_by_decoder");
+                continue;
+            };
+            classes_delivered.insert(m);
+            kernel::fault("shred_tampering");
+            // a commitment may be cached from the genuine prefix or from an earlier accepted shred
+            let with_cache = with_cache || rcv.bs.cached_commitment(shred_slot(&sh), shred_slice(&sh)).is_some();
+            let res = std::panic::catch_unwind(std::panic::AssertUnwindSafe(|| rcv.ingest(sh, &kp.pk)));
+            let Ok(r) = res else {
+                let ps = kernel::take_panics();
+                kernel::violation("C12", format!("panic:{m:?}"), format!("tampered shred ({m:?}) panicked the receiver: {:?}", ps.last().map(|p| format!("{} @ {}", p.message, p.location))));
+                break;
+            };
+            kernel::event_nt(&format!("mut {m:?} -> {r:?}"));
+            if r != Ingest::RejectedByValidation {
+                accepted_tampered += 1;
+                // accepted although altered: only legitimate if every bound field still equals a genuine shred's
+                let bound_equal = [&blk, &other].iter().any(|b| {
+                    b.shreds.iter().flatten().any(|g| {
+                        // bound fields: header, shred index, payload and proof (=> root); the type tag and
+                        // the signature bytes are not (a cached identical commitment vouches for the latter)
+                        let gb = wire::shred_bytes(g.as_shred());
+                        match (wire::shred_layout(&gb), wire::shred_layout(&bytes)) {
+                            (Some(lg), Some(lb)) => gb.len() == bytes.len() && lg.sig_off == lb.sig_off && gb[4..lg.sig_off] == bytes[4..lb.sig_off] && gb[lg.proof_len_off..] == bytes[lb.proof_len_off..] && (with_cache || gb[lg.sig_off..lg.proof_len_off] == bytes[lb.sig_off..lb.proof_len_off]),
+                            _ => false,
+                        }
+                    })
+                });
+                if !bound_equal {
+                    kernel::violation("C12", format!("tampered-accepted:{m:?}"), format!("shred altered by {m:?} passed validation ({r:?}, cache {with_cache})"));
+                }
+            }
+        }
+        // now the genuine shreds of every slice arrive: the correct leader must not be flagged
+        for slice_shreds in &blk.shreds {
+            let mut idx: Vec<usize> = (0..TOTAL_SHREDS).collect();
+            for i in (1..idx.len()).rev() {
+                let j = i - kernel::choose(N, (i + 1) as u64) as usize;
+                idx.swap(i, j);
+            }
+            for i in idx.into_iter().take(40) {
+                let b = wire::shred_bytes(slice_shreds[i].as_shred());
+                let _ = rcv.ingest(wire::decode_shred(&b).expect("dec"), &kp.pk);
+            }
+        }
+        if !rcv.invalid.is_empty() {
+            kernel::violation(
+                "C12",
+                "correct-leader-reported",
+                format!("correct leader of slot {slot} reported as misbehaving (InvalidBlock) after tampered shreds {classes_delivered:?} (accepted: {accepted_tampered}, cache {with_cache})"),
+            );
+        } else if rcv.blocks.len() != 1 {
+            kernel::violation(
+                "C12",
+                "tampering-blocked-reconstruction",
+                format!("correct leader's block not reconstructed ({} Block events) after tampered shreds {classes_delivered:?} (accepted: {accepted_tampered})", rcv.blocks.len()),
+            );
+        }
+    } else {
+        // Byzantine leader: two different validly signed commitments for one (slot, slice), both orders
+        let k = kernel::choose(G, blk.shreds.len() as u64) as usize;
+        let mut s2 = blk.slices[k].clone();
+        match kernel::choose(G, 3) {
+            0 => s2.data = wire::txs_payload(&[Transaction(vec![9; 9])]),
+            1 => s2.is_last = !s2.is_last,
+            _ => s2.data.push(0),
+        }
+        let mut shredder = RegularShredder::default();
+        let Ok(alt) = shredder.shred(&s2, &kp.sk) else { return WorldOutcome { nontrivial: false, sample: json!(null), virt_ms: 0 } };
+        let first_alt = kernel::choose(N, 2) == 1;
+        let (a, b): (&[ValidatedShred], &[ValidatedShred]) = if first_alt { (&alt[..], &blk.shreds[k][..]) } else { (&blk.shreds[k][..], &alt[..]) };
+        let na = 1 + kernel::choose(N, 20) as usize;
+        let mut silent_both = true;
+        let mut verdicts = Vec::new();
+        for s in a.iter().take(na) {
+            let r = rcv.ingest(wire::decode_shred(&wire::shred_bytes(s.as_shred())).expect("dec"), &kp.pk);
+            verdicts.push(r);
+        }
+        for s in b.iter().skip(30).take(3) {
+            let r = rcv.ingest(wire::decode_shred(&wire::shred_bytes(s.as_shred())).expect("dec"), &kp.pk);
+            verdicts.push(r);
+            if r != Ingest::Stored && r != Ingest::Duplicate {
+                silent_both = false;
+            }
+        }
+        kernel::fault("byzantine_leader_equivocation");
+        // ValidatedShred::try_new reports Equivocation for the second commitment (=> RejectedByValidation here)
+        // or the blockstore does; silently storing shreds of both commitments is the violation
+        if silent_both {
+            kernel::violation("C12", "equivocation-silently-accepted", format!("two different signed commitments for slot {slot} slice {k} were both stored: {verdicts:?}"));
+        }
+        classes_delivered.insert(Mutation::Splice);
+    }
+    for m in &classes_delivered {
+        kernel::fingerprint(&format!("{m:?}"));
+    }
+    kernel::fingerprint(&format!("{mode}:{accepted_tampered}"));
+    let mode_name = ["tamperer-no-cache", "tamperer-with-cache", "equivocating-leader"][mode as usize];
+    let sample = json!({"slot": slot, "mode": mode_name,
+        "mutation_classes_delivered": classes_delivered.iter().map(|m| format!("{m:?}")).collect::<Vec<_>>(),
+        "tampered_accepted": accepted_tampered, "invalid_events": rcv.invalid.len(), "block_events": rcv.blocks.len()});
+    WorldOutcome { nontrivial: !classes_delivered.is_empty(), sample, virt_ms: 0 }
+}
+
+// =============================================================================================
+// C16: independently constructed disseminator instances on a recording, loss-free network
+
+#[derive(Clone, Copy, Debug)]
+enum DKind {
+    Trivial,
+    Rotor,
+    RotorFa1,
+    Turbine(usize),
+}
+
+async fn node_loop<D: Disseminator>(d: Arc<D>, leader: usize, me: usize, received: Arc<std::sync::Mutex<BTreeMap<(usize, Vec<u8>), u32>>>) {
+    loop {
+        let Ok(shred) = d.receive().await else { return };
+        let key = (me, wire::shred_bytes(&shred)[4..37].to_vec());
+        *received.lock().unwrap().entry(key).or_insert(0) += 1;
+        // what the message loop does: forward; (the leader does not ingest)
+        let _ = d.forward(&shred).await;
+        let _ = leader;
+    }
+}
+
+pub fn c16_run(max_n: usize) -> WorldOutcome {
+    let n = 2 + kernel::choose(G, (max_n - 1) as u64) as usize;
+    let (stakes, stake_kind) = keys::draw_stakes(n, G);
+    let kind = match kernel::choose(G, 6) {
+        0 => DKind::Trivial,
+        1 | 2 => DKind::Rotor,
+        3 => DKind::RotorFa1,
+        4 => DKind::Turbine(1 + kernel::choose(G, n as u64) as usize),
+        _ => DKind::Turbine(200),
+    };
+    let window = 1 + kernel::choose(G, 12);
+    let slot = window * 4 + kernel::choose(G, 4);
+    let leader = (window % n as u64) as usize;
+    let tokio_seed = kernel::choose(G, 1 << 30);
+    let rt = tokio::runtime::Builder::new_current_thread()
+        .enable_time()
+        .start_paused(true)
+        .rng_seed(tokio::runtime::RngSeed::from_bytes(&tokio_seed.to_le_bytes()))
+        .build()
+        .expect("rt");
+    let stakes2 = stakes.clone();
+    let out = rt.block_on(async move {
+        kernel::set_t0();
+        let stakes = stakes2;
+        let vals = keys::validator_infos(&stakes);
+        let mut cfg = NetCfg::benign(n);
+        cfg.base_ms = 1 + kernel::choose(N, 30);
+        cfg.jitter_ms = kernel::choose(N, 80); // arbitrary delays / reordering, no loss
+        let net = NetCore::new(n, cfg);
+        tokio::spawn(pump(net.clone()));
+        let received: Arc<std::sync::Mutex<BTreeMap<(usize, Vec<u8>), u32>>> = Arc::new(std::sync::Mutex::new(BTreeMap::new()));
+        // instances are constructed at different simulated times and in a sampled order
+        let mut order: Vec<usize> = (0..n).collect();
+        for i in (1..n).rev() {
+            let j = i - kernel::choose(G, (i + 1) as u64) as usize;
+            order.swap(i, j);
+        }
+        let mut leader_send: Option<Box<dyn Fn(Shred) -> std::pin::Pin<Box<dyn std::future::Future<Output = ()>>>>> = None;
+        let local = tokio::task::LocalSet::new();
+        let kp = keys::keypair(leader);
+        let blk = wire::simple_block(Slot::new(slot), (Slot::new(slot - 1), wire::synth_hash(0, 1)), 1 + kernel::choose(G, 2) as usize, 5, &kp.sk);
+        let total_shreds: usize = blk.shreds.iter().map(Vec::len).sum();
+        local
+            .run_until(async {
+                for &i in &order {
+                    tokio::time::sleep(Duration::from_millis(kernel::choose(G, 50))).await;
+                    let ei = keys::vepoch(i, &stakes);
+                    let dnet = SimNet::<Shred, Shred>::new(&net, port_of(i, Iface::Dissem));
+                    macro_rules! start {
+                        ($d:expr) => {{
+                            let d = Arc::new($d);
+                            tokio::task::spawn_local(node_loop(d.clone(), leader, i, received.clone()));
+                            if i == leader {
+                                let d2 = d.clone();
+                                leader_send = Some(Box::new(move |s: Shred| {
+                                    let d3 = d2.clone();
+                                    Box::pin(async move {
+                                        let _ = d3.send(&s).await;
+                                    })
+                                }));
+                            }
+                        }};
+                    }
+                    match kind {
+                        DKind::Trivial => start!(TrivialDisseminator::new(vals.clone(), dnet)),
+                        DKind::Rotor => {
+                            let d: Rotor<_, IidQuorumSampler<StakeWeightedSampler>> = Rotor::new(dnet, ei);
+                            start!(d)
+                        }
+                        DKind::RotorFa1 => {
+                            let d: Rotor<_, FaitAccompli1Sampler<_>> = Rotor::new_fa1(dnet, ei);
+                            start!(d)
+                        }
+                        DKind::Turbine(f) => start!(Turbine::new(dnet, ei).with_fanout(f)),
+                    }
+                }
+                // warm some caches in a sampled call order before the real block (other slots)
+                let send = leader_send.take().expect("leader instance");
+                for slice_shreds in &blk.shreds {
+                    let mut idx: Vec<usize> = (0..TOTAL_SHREDS).collect();
+                    if kernel::choose(G, 2) == 1 {
+                        for i in (1..idx.len()).rev() {
+                            let j = i - kernel::choose(G, (i + 1) as u64) as usize;
+                            idx.swap(i, j);
+                        }
+                    }
+                    for i in idx {
+                        send(slice_shreds[i].as_shred().clone()).await;
+                    }
+                }
+                tokio::time::sleep(Duration::from_millis(2_000)).await;
+            })
+            .await;
+        // analysis on the recording transport
+        let taps = net.lock().unwrap().taps.clone();
+        let rec = received.lock().unwrap().clone();
+        let mut violations = 0;
+        for slice_shreds in &blk.shreds {
+            for s in slice_shreds {
+                let key = wire::shred_bytes(s.as_shred())[4..37].to_vec();
+                // senders of this shred on the wire
+                let mut sends: Vec<(usize, Vec<usize>)> = Vec::new();
+                for t in &taps {
+                    if t.bytes.len() > 37 && t.bytes[4..37] == key[..] {
+                        sends.push((t.from_node, t.to_ports.iter().map(|p| node_of(*p)).collect()));
+                    }
+                }
+                for v in 0..n {
+                    if v == leader {
+                        continue;
+                    }
+                    let cnt = rec.get(&(v, key.clone())).copied().unwrap_or(0);
+                    let want_once = matches!(kind, DKind::Turbine(_) | DKind::Trivial);
+                    if cnt == 0 {
+                        violations += 1;
+                        kernel::violation(
+                            "C16",
+                            format!("not-delivered:{}", kind_name(kind)),
+                            format!("{kind:?} n={n} stakes={stakes:?}: shred (slot {slot}) never reached validator {v} in a fault-free run; sends: {sends:?}"),
+                        );
+                    } else if cnt > 1 && want_once {
+                        violations += 1;
+                        kernel::violation("C16", format!("delivered-twice:{}", kind_name(kind)), format!("{kind:?} n={n}: validator {v} received a shred {cnt} times; sends: {sends:?}"));
+                    }
+                    if violations > 0 {
+                        break;
+                    }
+                }
+                if matches!(kind, DKind::Rotor | DKind::RotorFa1) {
+                    // every transmission except the leader's initial unicast is a relay broadcast
+                    let from_leader = sends.iter().filter(|(f, _)| *f == leader).count();
+                    let relay_broadcasts = sends.len() - from_leader + from_leader.saturating_sub(1);
+                    if relay_broadcasts > 1 {
+                        kernel::violation(
+                            "C16",
+                            format!("relay-broadcasts:{}", kind_name(kind)),
+                            format!("{kind:?} n={n} stakes={stakes:?}: shred was broadcast by {relay_broadcasts} relays (expected exactly one); sends: {sends:?}"),
+                        );
+                    }
+                }
+                if kernel::has_violation() {
+                    break;
+                }
+            }
+        }
+        (total_shreds, kernel::now_ms())
+    });
+    drop(rt);
+    kernel::fingerprint(&format!("{kind:?}:{n}:{stakes:?}:{slot}"));
+    let sample = json!({"disseminator": format!("{kind:?}"), "n": n, "stakes": stakes, "stake_kind": stake_kind, "slot": slot, "leader": leader, "shreds_sent": out.0});
+    WorldOutcome { nontrivial: n >= 3, sample, virt_ms: out.1 }
+}
+
+fn kind_name(k: DKind) -> &'static str {
+    match k {
+        DKind::Trivial => "trivial",
+        DKind::Rotor => "rotor",
+        DKind::RotorFa1 => "rotor_fa1",
+        DKind::Turbine(_) => "turbine",
+    }
+}
